@@ -13,6 +13,7 @@ ap.add_argument('patch'); ap.add_argument('prop')
 ap.add_argument('--demo'); ap.add_argument('--tier', default='quick'); ap.add_argument('--tests', action='store_true')
 ap.add_argument('--seed', default='0')
 a = ap.parse_args()
+HERE = os.path.dirname(os.path.dirname(os.path.abspath(__file__)))      # /verif, or a snapshot of it
 wt = tempfile.mkdtemp(prefix='try-%s-' % a.prop, dir='/tmp')
 os.rmdir(wt)
 def sh(cmd, **kw):
@@ -31,7 +32,7 @@ try:
     if a.demo:
         r = sh('cd %s && /venv/bin/python _demo.py' % wt); out['demo_patched_rc'] = r.returncode
     env = dict(os.environ, VERIF_REPO=wt, VERIF_SEED=a.seed)
-    r = sh('cd /verif && ./check %s --tier %s' % (a.prop, a.tier), env=env)
+    r = sh('cd %s && ./check %s --tier %s' % (HERE, a.prop, a.tier), env=env)
     viol = [l for l in r.stdout.split('\n') if l.startswith('VIOLATION')]
     out['check_rc'] = r.returncode
     out['violations'] = len(viol)
@@ -49,5 +50,5 @@ finally:
     sh('git -C /repo worktree remove --force %s' % wt)
     shutil.rmtree(wt, ignore_errors=True)
     # scratch, evidence and regenerated files of the trial (harness/lib.py keeps them apart from the real check's)
-    alt = os.path.join('/verif/_build/alt', re.sub(r'\W+', '_', os.path.realpath(wt)).strip('_'))
+    alt = os.path.join(HERE, '_build', 'alt', re.sub(r'\W+', '_', os.path.realpath(wt)).strip('_'))
     shutil.rmtree(alt, ignore_errors=True)
